@@ -64,7 +64,7 @@ func CreateCanonicalProposal(chainID string, proposal *kproto.Proposal) kproto.C
 func CreateCanonicalVote(chainID string, vote *kproto.Vote) kproto.CanonicalVote {
 	return kproto.CanonicalVote{
 		ChainID:   chainID,
-		Type:      kproto.PrevoteType,
+		Type:      vote.Type,
 		BlockID:   CanonicalizeBlockID(vote.BlockID),
 		Height:    vote.Height,
 		Round:     vote.Round,
